@@ -25,6 +25,7 @@ import (
 	"errors"
 	"fmt"
 	"os"
+	"reflect"
 	"runtime"
 	"sort"
 	"strings"
@@ -196,7 +197,28 @@ type step struct {
 	Acts  []action `json:"acts"`
 }
 
+// countingTracer is the metrics tracer handed to eventbus.WithMetricsTracer when the scenario
+// asks for a bus with one: it only counts the calls (atomically: it is called under the bus'
+// locks from every goroutine, must never block and must not be a synchronisation point of its
+// own). The counts feed coverage labels only; the property says nothing about metrics.
+type countingTracer struct {
+	emitted, added, removed, queueLen, queueFull, queued atomic.Int64
+}
+
+func (c *countingTracer) EventEmitted(reflect.Type)         { c.emitted.Add(1) }
+func (c *countingTracer) AddSubscriber(reflect.Type)        { c.added.Add(1) }
+func (c *countingTracer) RemoveSubscriber(reflect.Type)     { c.removed.Add(1) }
+func (c *countingTracer) SubscriberQueueLength(string, int) { c.queueLen.Add(1) }
+func (c *countingTracer) SubscriberQueueFull(string, bool)  { c.queueFull.Add(1) }
+func (c *countingTracer) SubscriberEventQueued(string)      { c.queued.Add(1) }
+
+var _ eventbus.MetricsTracer = (*countingTracer)(nil)
+
 type scenario struct {
+	// Tracer: the bus is built with eventbus.NewBus(eventbus.WithMetricsTracer(<counting
+	// tracer>)) instead of the plain eventbus.NewBus(). The property speaks of "the event bus"
+	// without restricting how it was constructed: every rule holds for both.
+	Tracer bool `json:"metrics_tracer,omitempty"`
 	// Stateful, per type: some emitter of the type is created with eventbus.Stateful (the type
 	// may get a retained event at some point of the history). Which emitters ask for it is
 	// EmStateful (one entry per emitter; omitted = every emitter of a type follows Stateful):
@@ -327,6 +349,7 @@ type harness struct {
 	sc      *scenario
 	scJSON  string
 	bus     event.Bus
+	tracer  *countingTracer // nil: plain bus
 	clk     atomic.Int64
 	ems     []*emState
 	subs    []*subState
@@ -1137,7 +1160,12 @@ func newHarness(sc *scenario) *harness {
 // runScenario executes sc against a fresh bus. It must be called inside a synctest bubble.
 func runScenario(sc *scenario) *result {
 	h := newHarness(sc)
-	h.bus = eventbus.NewBus()
+	if sc.Tracer {
+		h.tracer = &countingTracer{}
+		h.bus = eventbus.NewBus(eventbus.WithMetricsTracer(h.tracer))
+	} else {
+		h.bus = eventbus.NewBus()
+	}
 	for _, s := range h.subs {
 		s.ctl, s.stop, s.gone = make(chan int), make(chan struct{}), make(chan struct{})
 	}
